@@ -15,7 +15,7 @@ Definition tstep (g : globals) (p : tstate) (c : wcmd) : globals * tstate * out 
 
 (* the documented process-wide setters, and the one query of the exempt record *)
 Definition global_setter (c : wcmd) : bool :=
-  match c with WSec _ | WConfDirs _ => true | _ => false end.
+  match c with WSec _ | WPerms _ _ | WConfDirs _ => true | _ => false end.
 Definition reads_errloc (c : wcmd) : bool :=
   match c with WErrLoc => true | _ => false end.
 
